@@ -35,9 +35,12 @@ def cases(ctx):
     rng = ctx.rng
     for i in range(ctx.n(260, 1200)):
         K = int(rng.integers(2, 7))
+        many = rng.random() < 0.1  # many classes: index arithmetic beyond 8/16 bits
+        if many:
+            K = int(rng.choice([17, 24, 40, 70, 130, 260], p=[.3, .25, .2, .12, .08, .05]))
         kind = int(rng.integers(0, 3))
-        classes = list(range(K)) if kind == 0 else (list("abcdefg"[:K]) if kind == 1 else [10 * i - 7 for i in range(K)])
-        m = int(rng.integers(0, 41))
+        classes = list(range(K)) if kind == 0 else ((list("abcdefg"[:K]) if K <= 7 else ["c%03d" % j for j in range(K)]) if kind == 1 else [10 * i - 7 for i in range(K)])
+        m = int(rng.integers(0, 41)) if not many else int(rng.integers(60, 500))
         idx_l = rng.integers(0, K, m)
         idx_p = np.where(rng.random(m) < 0.6, idx_l, rng.integers(0, K, m))
         wk = int(rng.integers(0, 3))
